@@ -33,7 +33,8 @@ def run(pid, tier, seed):
       ev = evs[p[1] - 1]
       for cl in p[2]:
         kinds = sorted({t["kind"] for t in ev.get("toks", [])})
-        ident = {"direction": "parse", "clause": cl, "kinds": "+".join(kinds) if cl.startswith("outside") else None}
+        ident = {"direction": "parse", "clause": cl, "kinds": "+".join(kinds) if cl.startswith("outside") else None,
+                 "layout": ev.get("layout")}
         if cl.startswith("outside"):
           lists = [t for t in ev.get("toks", []) if t["kind"] in ("pylist", "qlist")]
           ident["list_as"] = ("keyword" if all(t["kw"] for t in lists) else "positional") if lists else None
